@@ -62,8 +62,8 @@ func runC01(c *ev.Ctx) {
 	seed := uint64(c.Seed)
 	r := gen.NewRng(gen.Mix(seed, 101))
 	lens := append([]int{}, quickLens...)
-	lens = append(lens, seededLens(r, 6, 100, 33333)...)
-	reps := 3
+	lens = append(lens, seededLens(r, 20, 100, 33333)...)
+	reps := 5
 	works := famWorks(gen.Mix(seed, 1), gen.Families, lens, reps, c01Specs(r))
 	if c.Thorough() {
 		works = append(works, famWorks(gen.Mix(seed, 2), gen.Families, thoroughLens, 1, c01Specs(r))...)
@@ -200,8 +200,8 @@ func runC02(c *ev.Ctx) {
 	r := gen.NewRng(gen.Mix(seed, 202))
 	all := func(n int) []Spec { return []Spec{{T: "runs"}, {T: "runsDist"}, {"longest", 1}, {"longest", 0}} }
 	lens := append([]int{}, quickLens...)
-	lens = append(lens, seededLens(r, 6, 100, 33333)...)
-	works := famWorks(gen.Mix(seed, 1), gen.Families, lens, 3, all)
+	lens = append(lens, seededLens(r, 40, 100, 33333)...)
+	works := famWorks(gen.Mix(seed, 1), gen.Families, lens, 8, all)
 	// runs-total at tiny n
 	for n := 1; n <= 40; n++ {
 		for k := 0; k < 4; k++ {
@@ -218,6 +218,23 @@ func runC02(c *ev.Ctx) {
 				bits := runlenSeq(gen.NewRng(gen.Mix(seed, 6, uint64(n), uint64(final), uint64(rep))), n, k, final)
 				works = append(works, seqWork{Seq: gen.Explicit(bits), Specs: all(n), Degenerate: true})
 				c.Count("cutoff_straddling_sequences", 1)
+			}
+		}
+	}
+	// lengths at which the runs-distribution cut-off k switches: e_k = (n-k+3)/2^(k+2) is exactly 5
+	// at n = 5*2^(k+2)+k-3; probe each of them and both neighbours
+	for k := 1; k <= 15; k++ {
+		n0 := 5*(1<<uint(k+2)) + k - 3
+		for _, n := range []int{n0 - 1, n0, n0 + 1} {
+			if n < 100 || (!c.Thorough() && n > 200000) {
+				continue
+			}
+			for rep, f := range []string{"uniform", "slight", "markov", "biased"} {
+				if n > 50000 && rep > 1 {
+					continue
+				}
+				works = append(works, seqWork{Seq: gen.Seq{Fam: f, N: n, Seed: gen.Mix(seed, 9, uint64(n), uint64(rep))}, Specs: []Spec{{T: "runsDist"}}})
+				c.Count("cutoff_switch_length_sequences", 1)
 			}
 		}
 	}
@@ -268,8 +285,8 @@ func runC03(c *ev.Ctx) {
 		return sp
 	}
 	lens := append([]int{}, quickLens...)
-	lens = append(lens, seededLens(r, 6, 100, 33333)...)
-	works := famWorks(gen.Mix(seed, 1), gen.Families, lens, 3, all)
+	lens = append(lens, seededLens(r, 40, 100, 33333)...)
+	works := famWorks(gen.Mix(seed, 1), gen.Families, lens, 8, all)
 	// prescribed-excursion walks: Z on a log grid from 1 to n, both orientations
 	walkLens := []int{100, 101, 1000, 4099, 20000}
 	if c.Thorough() {
@@ -475,9 +492,9 @@ func runC04(c *ev.Ctx) {
 	runSeqWorks(c, works)
 
 	// (b) exhaustive: all 2^m blocks, m = 2..M, as single-block calls
-	M := 14
+	M := 16
 	if c.Thorough() {
-		M = 16
+		M = 18
 	}
 	for m := 2; m <= M; m++ {
 		total := 1 << uint(m)
@@ -514,9 +531,10 @@ func runC05(c *ev.Ctx) {
 	r := gen.NewRng(gen.Mix(seed, 505))
 	dft := func(n int) []Spec { return []Spec{{T: "dft"}} }
 	lens := []int{2, 3, 4, 5, 6, 7, 8, 9, 15, 16, 17, 100, 127, 128, 129, 255, 256, 257, 1000, 1023, 1024, 1025, 4095, 4096, 4097, 10000, 16384, 16385, 20000, 32768, 33333, 65536, 65537}
-	lens = append(lens, seededLens(r, 10, 100, 70000)...)
+	lens = append(lens, 131071, 131072, 131073)
+	lens = append(lens, seededLens(r, 30, 100, 70000)...)
 	fams := []string{"uniform", "slight", "biased", "zeros", "ones", "alt", "periodic", "byteperiodic", "markov", "lfsr", "sparse", "balanced"}
-	works := famWorks(gen.Mix(seed, 1), fams, lens, 2, dft)
+	works := famWorks(gen.Mix(seed, 1), fams, lens, 3, dft)
 	// sharp-peak periodic inputs: every bit period 2..70 at a power of two and off it
 	for p := 2; p <= 70; p++ {
 		for _, n := range []int{1024, 1000, 4099} {
